@@ -19,7 +19,7 @@ from typing import Dict, List, Optional, Set, Union
 
 from .core import HarnessError
 from .faults import make_callback
-from .snap import Box
+from .snap import Bomb, Box, Catcher
 
 try:
     from typing import Literal
@@ -207,6 +207,9 @@ DEFAULT_PROFILE = {
     "p_lazy": 0.6,
     "force_kinds": [],
     "allow_new_shapes": False,
+    "allow_mutable_props": False,
+    "allow_bad_defaults": False,
+    "p_sub": 0.35,
 }
 
 
@@ -241,6 +244,12 @@ def gen_class_spec(src, profile=None):
         name = names[0]
         used.add(name)
         a = {"name": name, "kind": kind, "default": gen_default(src, kind), "flags": {}}
+        if p["allow_bad_defaults"] and kind in ("int", "str", "float", "bounded", "validated", "lit", "union") and src.chance(0.1):
+            # a class-level default that does not conform to the annotation (the common `x: int = None`): legal to
+            # declare; the instance must then be given a value, and a reset / delete must not establish the default
+            bad = [v for v in bad_values(kind) if not isinstance(v, list) or v[0] == "float"]
+            a["default"] = [src.choice(["lit", "attr"]), src.choice(bad)]
+            a["bad_default"] = True
         if p["allow_attr_dnc"] and src.chance(0.12):
             a["flags"]["do_not_copy"] = True
         if p["allow_init_false"] and src.chance(0.06) and a["default"][0] != "none":
@@ -308,6 +317,8 @@ def gen_class_spec(src, profile=None):
                 "invalidated_by": deps,
                 "reads": [d for d in deps if d != "*"] or names[:1],
             })
+            if p["allow_mutable_props"]:
+                host["props"][-1]["returns"] = src.choice(["summary", "fresh", "alias"])
     if p["allow_hooks"]:
         host["post_init"] = src.chance(0.2)
         host["post_copy"] = src.chance(0.25)
@@ -321,12 +332,16 @@ def gen_class_spec(src, profile=None):
         "host": host,
         "sub": None,
     }
-    if p["allow_sub"] and src.chance(0.35):
+    if p["allow_sub"] and src.chance(p["p_sub"]):
         skind = src.choice(["spec", "plain", "spec"])
         sub = {"kind": skind, "redefault": [], "redeclare": [], "extra": []}
         cands = [a for a in attrs if not a.get("flags")]
         for a in src.sample(cands, min(len(cands), src.randint(0, 2))):
             entry = {"name": a["name"], "value": good_value(src, a["kind"], small=True)}
+            if p["allow_bad_defaults"] and a["kind"] in ("int", "str", "float", "bounded", "validated", "lit", "union") \
+                    and src.chance(0.2):
+                entry["value"] = src.choice([v for v in bad_values(a["kind"]) if not isinstance(v, list) or v[0] == "float"])
+                entry["bad_default"] = True
             if skind == "spec" and src.chance(0.4):
                 sub["redeclare"].append(entry)
             else:
@@ -423,7 +438,8 @@ def good_value(src, kind, small=False):
             kw["v"] = src.choice([0, 1, 2, 9])
         return ["kitem", kw]
     if kind in ("list_leaf",):
-        return ["list", [good_value(src, "leaf") for _ in range(src.randint(0, 2 if small else 3))]]
+        return ["tuple" if (not small and src.chance(0.12)) else "list",
+                [good_value(src, "leaf") for _ in range(src.randint(0, 2 if small else 3))]]
     if kind == "dict_leaf":
         keys = src.sample(["a", "b", "c", ""], src.randint(0, 2 if small else 3))
         return ["dict", [[k, good_value(src, "leaf")] for k in keys]]
@@ -431,6 +447,14 @@ def good_value(src, kind, small=False):
         keys = src.sample(["a", "b", "c", "d", ""], src.randint(0, 2 if small else 3))
         items = [["kitem", {"k": k, **({"v": src.choice([0, 1, 2])} if src.chance(0.5) else {})}] for k in keys]
         tag = {"list_kitem": "list", "klist": "klist", "kset": "kset"}[kind]
+        # the everyday spelling: a plain list (or tuple) handed to a KeyedList / KeyedSet / List attribute, which the
+        # library rebuilds into the declared container
+        # (argument values only: declared defaults keep the declared container type)
+        u = 1.0 if small else src.random()
+        if kind in ("klist", "kset") and u < 0.3:
+            tag = "list" if u < 0.22 else "tuple"
+        elif kind == "list_kitem" and u < 0.12:
+            tag = "tuple"
         return [tag, items]
     if kind == "dict_kitem":
         keys = src.sample(["a", "b", "c", ""], src.randint(0, 2 if small else 3))
@@ -587,6 +611,13 @@ def build_value(v, classes, faults=None):
         return float(payload)
     if tag == "box":
         return Box(b(payload))
+    if tag == "bomb":
+        return Bomb(True)  # copying it raises
+    if tag == "catchbomb":
+        # a container that survives the failing copy of a spec instance nested in it: Catcher(Carrier(payload=<armed>))
+        carrier = classes["__carrier__"](payload=Bomb(False))
+        carrier.payload.armed = True
+        return Catcher(carrier)
     if tag == "leaf":
         return classes["leaf"](**{k: b(x) for k, x in payload.items()})
     if tag == "kitem":
@@ -677,13 +708,19 @@ def _has_module(v):
     return False
 
 
-def make_getter(faults, pname, reads):
+def make_getter(faults, pname, reads, returns="summary"):
     def getter(self):
         faults.hit(f"getter:{pname}")
+        if returns == "alias":
+            # a fresh list holding the attribute objects themselves: cached, it is unmanaged instance state that
+            # refers into the instance's own graph
+            return [self.__dict__.get(r, None) for r in reads]
         out = []
         for r in reads:
             v = self.__dict__.get(r, None)
             out.append(_summ(v))
+        if returns == "fresh":
+            return [list(out)]  # a new mutable object per computation
         return tuple(out)
 
     getter.__name__ = pname
@@ -724,6 +761,8 @@ def materialise(spec, faults, name_suffix=""):
     B = Built()
     classes = B.classes
     classes["__h1__"] = Helper("h1")
+    classes["__carrier__"] = spec_class(bootstrap=True)(type("Carrier", (), {
+        "__module__": "specsim.generated", "__annotations__": {"payload": typing.Any}, "payload": None}))
     classes["__h2__"] = Helper("h2")
 
     # Leaf --------------------------------------------------------------
@@ -781,7 +820,7 @@ def materialise(spec, faults, name_suffix=""):
         declare_key()
     ns["__annotations__"] = ann
     for pr in h.get("props", []):
-        g = make_getter(faults, pr["name"], pr["reads"])
+        g = make_getter(faults, pr["name"], pr["reads"], pr.get("returns", "summary"))
         ns[pr["name"]] = spec_property(g, cache=pr["cache"], overridable=pr["overridable"],
                                        invalidated_by=pr["invalidated_by"])
     if h.get("post_init"):
@@ -843,6 +882,8 @@ def materialise(spec, faults, name_suffix=""):
             sns[e["name"]] = build_value(e["value"], classes, None)
             sinfo[e["name"]]["default"] = ["lit", e["value"]]
             sinfo[e["name"]]["redefaulted"] = True
+            if e.get("bad_default"):
+                sinfo[e["name"]]["bad_default"] = True
         if sub["kind"] == "spec":
             for e in sub.get("redeclare", []):
                 sns[e["name"]] = build_value(e["value"], classes, None)
